@@ -18,7 +18,7 @@ from ..engine import pattern as P
 from ..engine.facts import dotted, const, src, walk_func, str_value
 from ..engine.facts import ancestors as facts_ancestors
 from . import skeletons as sk
-from .common import pn, access_paths, assigned_from, resolve
+from .common import pn, access_paths, assigned_from, resolve, fragment_completions
 from .c13 import check_skeleton, loop_construct_traces, _T
 from . import c01  # text-stops-cover is registered for C03 there
 
@@ -57,14 +57,7 @@ def keyword_tables(ctx):
     ctx.check(bool(ret) and "self.keyword" in src(ret[0].value) and "keyword in" in src(ret[0].value), "parsetree.ternary-lookup", db.where(it), "is_ternary does not look the keyword up under the line's own keyword", "keyword in cases.get(self.keyword, ...)")
     # PythonFragment
     pf = db.func("ast.PythonFragment.__init__")
-    handled = set()
-    for n in walk_func(pf):
-        if isinstance(n, ast.Compare) and isinstance(n.left, ast.Name):
-            c = n.comparators[0]
-            if isinstance(c, ast.Constant):
-                handled.add(c.value)
-            elif isinstance(c, (ast.List, ast.Tuple, ast.Set)):
-                handled |= {const(e) for e in c.elts}
+    handled = {k_ for kws_, pre_, suf_, off_, n_ in fragment_completions(db) for k_ in kws_}
     for k in ALL_KW:
         ctx.check(k in handled, "fragment:" + k, db.where(pf), "PythonFragment has no branch for control keyword %r: `%% %s` raises 'Unsupported control keyword'" % (k, k), "handled")
     extra = {k for ks in tbl.values() for k in ks} - handled
@@ -497,6 +490,6 @@ def body_children(ctx):
     popblk = [c for c in walk_func(an) if isinstance(c, ast.Call) and src(c.func) == "self.ternary_stack.pop" and not c.args]
     ctx.check(len(newblk) == 1 and len(popblk) == 1, "ternary-blocks", db.where(an), "the per-block list of ternaries is not opened with the primary line and dropped with its end line", "one list of ternaries per open block")
     vc = db.func("codegen._GenerateRenderMethod.visitControlLine")
-    ch = assigned_from(vc, "%s.get_children()" % pn(vc, 1))
+    ch = [c_ for c_ in walk_func(vc) if isinstance(c_, ast.Call) and P.matches(c_, "%s.get_children()" % pn(vc, 1))]
     gc = db.func("parsetree.ControlLine.get_children")
     ctx.check(bool(ch) and P.has(gc, "return self.nodes"), "generator-reads", db.where(vc), "the empty-body test does not read the control line's own node list", "get_children() is the list the lexer filled")
